@@ -725,6 +725,22 @@ func (e *Env) evalCall(n *ECall) SVal {
 	case "mkev":
 		u8 := goT(types.Typ[types.Uint8])
 		return SVal{T: T(SEv, "(mk_Ev (_ bv3 64) %s %s %s)", e.coerce(arg(0), u8).T.S, e.coerce(arg(1), u8).T.S, e.coerce(arg(2), u8).T.S), Ty: stEv}
+	case "mkarr":
+		first := e.concrete(arg(0))
+		et := first.Ty
+		var elems []Term
+		for i := range n.Args {
+			elems = append(elems, e.coerce(arg(i), et).T)
+		}
+		at := types.NewArray(et.Go, int64(len(elems)))
+		return SVal{T: x.w.dtMake(x.w.sortOf(at), elems), Ty: goT(at)}
+	case "fnref":
+		name := n.Args[0].(*EStr).V
+		key := name
+		if !strings.Contains(name, "#") && e.pkg != nil {
+			key = e.pkg.Path() + "#" + name
+		}
+		return SVal{T: x.w.fnLit(key), Ty: goT(types.Typ[types.UnsafePointer])}
 	case "allocated":
 		v := arg(0)
 		r := v.T
@@ -776,10 +792,17 @@ func (e *Env) evalCall(n *ECall) SVal {
 		}
 		return boolV(sel(vs, k.T))
 	case "idx":
+		if e.loop != nil && e.loop.idxAlloc != nil {
+			v, ok := e.cur.locals[e.loop.idxAlloc]
+			if !ok {
+				sfail("idx(): range index not initialised")
+			}
+			return SVal{T: T(SBV(64), "(bvadd %s (_ bv1 64))", v.S), Ty: stInt}
+		}
 		if e.loop == nil || e.loop.idxPhi == nil {
 			sfail("idx() outside a slice-range loop annotation")
 		}
-		return SVal{T: e.x.vals[e.loop.idxPhi], Ty: stInt}
+		return SVal{T: T(SBV(64), "(bvadd %s (_ bv1 64))", e.x.vals[e.loop.idxPhi].S), Ty: stInt}
 	}
 	// predicate / spec fn
 	if pd := x.eng.pred(n.Fn); pd != nil {
